@@ -24,7 +24,12 @@ usage: tools/harmless.py [name ...] [--mode verify|translate|proof|check] [--see
              check and seed (default mode).
 
 Prints a table (one row per rewrite), writes the JSON given by --out (default harmless/results_<mode>.json) and
-exits 1 if any check alarmed (or, in verify mode, if a rewrite is not behaviour-preserving).
+exits 1 if any check alarmed (or, in verify mode, if a rewrite is not behaviour-preserving).  A rewrite whose json says
+"expected": "residual" (with "residual_why") is one the framework cannot relate to the original without guessing: it is run
+and reported like the others, but its alarm is by design and does not count towards the exit status.
+
+  report     tools/harmless.py --mode report --before A.json[,B.json…] --after C.json[,D.json…]  prints the before/after
+             table (markdown) from result files of proof / check runs.
 """
 from __future__ import annotations
 
@@ -69,6 +74,17 @@ def corpus(names):
 
 def meta(name):
     return json.loads((HARM / f"{name}.json").read_text())
+
+
+def is_residual(name):
+    """a rewrite the corpus itself marks as still alarming by design (harmless/<name>.json: "expected": "residual")"""
+    return meta(name).get("expected") == "residual"
+
+
+def count_bad(name, statuses):
+    """an alarm counts unless the rewrite is a declared residual case"""
+    alarm = any(s != "OK" for s in statuses)
+    return alarm and not is_residual(name)
 
 
 class Tree:
@@ -233,12 +249,63 @@ def check_one(check, wt, seed, tier):
     return rec
 
 
+# ------------------------------------------------------------------------------------------------ report
+
+def summarise(rec):
+    """one word per rewrite: OK / REFUSED / PROOF-BREAKS / … (the worst status over its checks), and the checks that alarm"""
+    order = ["OK", "LEG-A", "ALARM", "PROOF-BREAKS", "REFUSED", "FAILING-INPUT"]
+    worst, where = "OK", []
+    for c, v in (rec or {}).get("checks", {}).items():
+        for x in (v if isinstance(v, list) else [v]):
+            st = x["status"]
+            if st != "OK":
+                where.append(c)
+            if order.index(st) > order.index(worst):
+                worst = st
+    return worst, sorted(set(where))
+
+
+def report(before, after):
+    def load(paths):
+        res, modes = {}, set()
+        for p in paths:
+            if p:
+                j = json.loads(Path(p).read_text())
+                modes.add(j.get("mode"))
+                res.update(j["results"])
+        return res, "/".join(sorted(m for m in modes if m))
+    b, bm = load(before)
+    a, am = load(after)
+    names = sorted(set(a) | set(b))
+    print(f"| rewrite | function | what | checks | before ({bm}) | after ({am}) |")
+    print("|---|---|---|---|---|---|")
+    tot = {"before": {}, "after": {}}
+    for n in names:
+        m = meta(n) if (HARM / f"{n}.json").exists() else {}
+        cells = []
+        for key, res in (("before", b), ("after", a)):
+            if n not in res:
+                cells.append("—")
+                continue
+            st, where = summarise(res[n])
+            tot[key][st] = tot[key].get(st, 0) + 1
+            cells.append("survives" if st == "OK" else f"{st.lower()} ({', '.join(where)})")
+        if m.get("expected") == "residual":
+            cells[1] += " — residual by design"
+        print(f"| {n} | `{m.get('function', '?')}` | {m.get('what', '')} | {', '.join(m.get('checks', []))} | {cells[0]} | {cells[1]} |")
+    for key in ("before", "after"):
+        print(f"\n{key}: " + ", ".join(f"{v} {'survive' if k == 'OK' else k.lower()}" for k, v in sorted(tot[key].items())) + f" (of {sum(tot[key].values())})")
+    return 0
+
+
 # ------------------------------------------------------------------------------------------------ main
 
 def main():
     ap = argparse.ArgumentParser()
     ap.add_argument("names", nargs="*")
-    ap.add_argument("--mode", default="check", choices=["verify", "translate", "proof", "check"])
+    ap.add_argument("--mode", default="check", choices=["verify", "translate", "proof", "check", "report"])
+    ap.add_argument("--before", default="")
+    ap.add_argument("--after", default="")
     ap.add_argument("--checks", default=None, help="override the checks listed in the json files")
     ap.add_argument("--seeds", default="0")
     ap.add_argument("--tier", default="quick")
@@ -246,6 +313,8 @@ def main():
     ap.add_argument("--out", default=None)
     ap.add_argument("--keep-going", action="store_true", default=True)
     a = ap.parse_args()
+    if a.mode == "report":
+        return report(a.before.split(","), a.after.split(","))
     names = corpus(a.names)
     out_path = Path(a.out) if a.out else HARM / f"results_{a.mode}.json"
     results = {}
@@ -304,7 +373,10 @@ def main():
                         checks = a.checks.split(",") if a.checks else meta(n)["checks"]
                         rec = {"generated": {k: tr[n][k] for k in ("refused", "changed", "hash")}, "checks": {}}
                         for c in checks:
-                            key = f"{lh}:{tr[n]['hash']}:{c}"
+                            # the refusals are part of the key: a table extractor that refuses falls back to a default value, so a
+                            # refused rewrite can have the same generated text as an accepted one
+                            rk = hashlib.sha256(json.dumps(sorted(tr[n]["refused"])).encode()).hexdigest()[:8]
+                            key = f"{lh}:{tr[n]['hash']}:{rk}:{c}"
                             if key not in cache:
                                 if cur != tr[n]["hash"]:
                                     # put this rewrite's generated files in place (refused targets are missing from them,
@@ -318,8 +390,9 @@ def main():
                             rec["checks"][c] = cache[key]
                         results[n] = rec
                         row = " ".join(f"{c}:{v['status']}" for c, v in rec["checks"].items())
-                        print(f"{n:28s} changed={','.join(x[:-5] for x in tr[n]['changed']) or '-':24s} {row}", flush=True)
-                        bad += any(v["status"] != "OK" for v in rec["checks"].values())
+                        print(f"{n:28s} changed={','.join(x[:-5] for x in tr[n]['changed']) or '-':24s} {row}"
+                              + ("   (declared residual)" if is_residual(n) else ""), flush=True)
+                        bad += count_bad(n, [v["status"] for v in rec["checks"].values()])
                         save()
                 finally:
                     for f, txt in base.items():
@@ -347,8 +420,8 @@ def main():
                         rec["checks"].setdefault(c, []).append(r)
                     results[n] = rec
                     row = " ".join(f"{c}:{'/'.join(x['status'] for x in v)}" for c, v in rec["checks"].items())
-                    print(f"{n:28s} {row}", flush=True)
-                    bad += any(x["status"] != "OK" for v in rec["checks"].values() for x in v)
+                    print(f"{n:28s} {row}" + ("   (declared residual)" if is_residual(n) else ""), flush=True)
+                    bad += count_bad(n, [x["status"] for v in rec["checks"].values() for x in v])
                     save()
             finally:
                 for f, b in saved.items():
